@@ -124,6 +124,14 @@ def one(ctx, config, rng, alt, value, minv, exp, min_bits, blind, msglen, extral
             ctx.check(not any(mo), "rangeproof_rewind:message_not_zero", det, config)
         ctx.check((rw.i(5), rw.i(6)) == (lo, hi), "rangeproof_rewind:range_differs", "", config)
         # other output-option subsets give the same result
+        # short and empty message buffers: value / blind still recovered, the message prefix that fits is returned
+        for mbl in (0, rng.choice((1, 31, 32, 33, 100))):
+            rw3 = ctx.call("rangeproof_rewind", 7, mbl, nonce, Co, proof, extra or None, Ho, config=config)
+            if rw3 is not None:
+                ctx.ev("rangeproof_rewind", "message_buffer_%s" % ("empty" if mbl == 0 else "short"), True, proof, nonce, mbl)
+                ok3 = rw3.ret == 1 and rw3.b(1) == b32(blind) and rw3.i(2) == value and rw3.i(3) <= mbl
+                if ok3 and mbl: ok3 = rw3.b(4)[:rw3.i(3)] == (msg + bytes(4096))[:rw3.i(3)]
+                ctx.check(ok3, "rangeproof_rewind:short_message_buffer", det + " mbl=%d %r" % (mbl, rw3), config)
         fl = rng.choice((0, 1, 2, 3, 4, 5, 6)); rw2 = ctx.call("rangeproof_rewind", fl, 4096 if rng.random() < 0.7 else max(msglen, 1), nonce, Co, proof, extra or None, Ho, config=config)
         if rw2 is not None:
             ctx.ev("rangeproof_rewind", "option_subset", True, proof, nonce, fl)
